@@ -271,9 +271,12 @@ func (p *poller) DelWrite(slot *Slot) error {
 }
 
 func (p *poller) Del(slot *Slot) error {
+	// Both interests are dropped, and un-counted, even if dropping the first one fails (for example because the
+	// descriptor was closed underneath): a slot that is being deleted must not stay counted as pending.
 	err := p.DelRead(slot)
+	werr := p.DelWrite(slot)
 	if err == nil {
-		return p.DelWrite(slot)
+		return werr
 	}
 	return nil
 }
